@@ -133,6 +133,39 @@ def joinPath (base p : Str) : Str :=
   else if !endsSlash base && !startsSlash p then base ++ '/' :: p
   else base ++ p
 
+/-! ### the request target on the wire: `http.ReadRequest` → `url.ParseRequestURI` → `URL.Path` -/
+
+def isHex (c : Char) : Bool :=
+  c.isDigit || ('a' ≤ c && c ≤ 'f') || ('A' ≤ c && c ≤ 'F')
+
+def hexV (c : Char) : Nat :=
+  if c.isDigit then c.toNat - '0'.toNat
+  else if 'a' ≤ c && c ≤ 'f' then c.toNat - 'a'.toNat + 10
+  else c.toNat - 'A'.toNat + 10
+
+/-- `url.unescape(s, encodePath)`: every `%XX` is decoded, a malformed `%` is an error, `+` stays. -/
+def unescape : Str → Option Str
+  | [] => some []
+  | [c] => if c = '%' then none else some [c]
+  | [c, d] => if c = '%' then none else (unescape [d]).map (c :: ·)
+  | c :: a :: b :: r =>
+    if c = '%' then
+      if isHex a && isHex b then (unescape r).map (Char.ofNat (hexV a * 16 + hexV b) :: ·) else none
+    else (unescape (a :: b :: r)).map (c :: ·)
+
+/-- bytes that make `net/http` refuse the request line: control bytes (`stringContainsCTLByte`) and
+the space (it ends the request target). -/
+def badTargetByte (c : Char) : Bool := c.toNat < 0x20 || c.toNat == 0x7f || c == ' '
+
+/-- the part of an origin-form request target before the first `?`. -/
+def rawPath (t : Str) : Str := t.takeWhile (· ≠ '?')
+
+/-- `URL.Path` of an origin-form request target (one that starts with `/`), `none` when `net/http`
+answers 400 itself.  Other forms (`*`, absolute and authority form) are not modelled here; for them
+the model starts from the parsed path. -/
+def parseTarget (t : Str) : Option Str :=
+  if t.any badTargetByte then none else unescape (rawPath t)
+
 /-! ### net.SplitHostPort / netutil.SplitHost -/
 
 def lastIdx (c : Char) : Str → Option Nat
